@@ -119,7 +119,7 @@ def rule_R3(P, rep, active_wait):
     lockp = F.params[2]["n"]
     L = "var:" + lockp
     sel = seq.Sel(fields={"p_head", "p_tail", "p_next"}, calls={"ABTD_futex_wait_and_unlock"},
-                  conds=lambda t: "thread.state" in t)
+                  conds=lambda t: "ABTI_thread::state" in t, canon=True)
     ps = [p for p in seq.sequences(F, sel, max_len=100) if p[1] == "ret"]
     rep.need(len(ps) >= 4, "wait_and_unlock: %d paths" % len(ps))
     for toks, kind, rv, rtxt in ps:
@@ -134,7 +134,8 @@ def rule_R3(P, rep, active_wait):
         for i, t in enumerate(toks):
             if t[0] == "xfer" and t[1] == "ABTD_futex_wait_and_unlock":
                 # a READY test under the lock since the last (re)acquisition
-                prev = [j for j in range(i) if toks[j][0] == "if" and "thread.state" in toks[j][1]]
+                prev = [j for j in range(i) if toks[j][0] == "if" and "ABTI_thread::state" in toks[j][1] and
+                        toks[j][1].endswith("== ABT_THREAD_STATE_READY")]
                 last_acq = max([j for j in range(i) if toks[j][0] == "acq" and toks[j][1] == L] + [-1])
                 if not prev or prev[-1] < last_acq:
                     why.append("futex wait without re-testing READY under the lock (sleeping while ready)")
@@ -147,11 +148,22 @@ def rule_R3(P, rep, active_wait):
     rep.min_instances("R3", 4)
 
 
+def _r4_cond(t):
+    """Canonical labels of the tests of the recursive-mutex wrappers (names and polarity independent)."""
+    if t == "ABTI_mutex::attrs & 1":
+        return "recursive"
+    if "ABTI_mutex::owner_id ==" in t and "ABTI_self_get_thread_id(" in t:
+        return "owner==self"
+    if t.startswith("ABTI_mutex_trylock_no_recursion("):
+        return "try-failed"          # the result compared with ABT_SUCCESS (0): non-zero = failed
+    if t == "ABTI_mutex::nesting_cnt":
+        return "nested"              # nesting_cnt != 0
+    return None
+
+
 def rule_R4(P, rep):
     sel = seq.Sel(calls=lambda fn: fn.startswith("ABTI_mutex_") and fn.endswith("_no_recursion"),
-                  fields={"owner_id", "nesting_cnt"},
-                  conds=lambda t: t in ("p_mutex->attrs & 1", "self_id != p_mutex->owner_id", "abt_errno == 0",
-                                        "p_mutex->nesting_cnt == 0"), locks=False)
+                  fields={"owner_id", "nesting_cnt"}, conds=_r4_cond, locks=False, canon=True)
     lockers = {"ABTI_mutex_lock": "ABTI_mutex_lock_no_recursion", "ABTI_mutex_trylock": "ABTI_mutex_trylock_no_recursion",
                "ABTI_mutex_spinlock": "ABTI_mutex_spinlock_no_recursion"}
     for fn, inner in sorted(lockers.items()):
@@ -166,27 +178,28 @@ def rule_R4(P, rep):
             stores = [(t[1], t[2], t[3]) for t in toks if t[0] == "st"]
             if other:
                 why.append("calls %s" % other[0][1])
-            if not has_if(toks, "p_mutex->attrs & 1", True):
+            if not has_if(toks, "recursive", True):
                 k = "plain"
                 if len(calls) != 1 or stores:
                     why.append("a non-recursive mutex must only call %s" % inner)
-            elif has_if(toks, "self_id != p_mutex->owner_id", True):
+            elif has_if(toks, "owner==self", False):
                 k = "first"
                 if len(calls) != 1:
                     why.append("first acquisition must call %s once" % inner)
-                failed = fn == "ABTI_mutex_trylock" and has_if(toks, "abt_errno == 0", False)
+                failed = fn == "ABTI_mutex_trylock" and has_if(toks, "try-failed", True)
                 if failed:
                     k = "first-failed"
                     if stores:
                         why.append("owner/nesting written although trylock failed")
                 else:
-                    if stores != [("ABTI_mutex::owner_id", "=", "self_id")]:
+                    if not (len(stores) == 1 and stores[0][:2] == ("ABTI_mutex::owner_id", "=") and
+                            str(stores[0][2]).startswith("ABTI_self_get_thread_id(")):
                         why.append("first acquisition must record the owner (stores: %s)" % stores)
                     else:
                         st = [i for i, t in enumerate(toks) if t[0] == "st"][0]
                         if calls and st < calls[0]:
                             why.append("owner recorded before the mutex is acquired")
-                    if fn == "ABTI_mutex_trylock" and not has_if(toks, "abt_errno == 0", True):
+                    if fn == "ABTI_mutex_trylock" and not has_if(toks, "try-failed", False):
                         why.append("owner recorded without testing the trylock result")
             else:
                 k = "nested"
@@ -209,11 +222,11 @@ def rule_R4(P, rep):
         why = []
         calls = idx(toks, is_call("ABTI_mutex_unlock_no_recursion"))
         stores = [(t[1], t[2], t[3]) for t in toks if t[0] == "st"]
-        if not has_if(toks, "p_mutex->attrs & 1", True):
+        if not has_if(toks, "recursive", True):
             k = "plain"
             if len(calls) != 1 or stores:
                 why.append("a non-recursive mutex must only call unlock_no_recursion")
-        elif has_if(toks, "p_mutex->nesting_cnt == 0", True):
+        elif has_if(toks, "nested", False):
             k = "last"
             if len(calls) != 1 or stores != [("ABTI_mutex::owner_id", "=", 0)]:
                 why.append("last unlock must clear the owner and release once (stores %s, %d releases)" % (stores, len(calls)))
